@@ -12,6 +12,12 @@ from harness.common import Failure, Spec, coq_list
 # case = {"variant": "gen"|"coro", "body": stmt, "outs": [["ok", z] | ["err", n] | ["errsub", n]], "cancs": [canc],
 #         "dsub": [bool], "pre": [d], "sched": [["fire", d] | ["cancel"]]}
 #   canc = ["nothing"] | ["succeed", z] | ["fail", n] | ["failsub", n]
+#   "chains": [kind]  the awaited Deferred's OWN callback chain, added when it is created:
+#        "none" | "plus" (addCallback(v -> v + 100)) | "recover" (addErrback(failure -> 7))
+#        | "inner" (addCallback(v -> a pending inner Deferred, fired later with v + 100))
+#   ["hold", d] / "prehold": D[d] is pause()d and then fired (chain "inner": just fired, its callback returns the pending
+#        inner Deferred): it has a raw result but delivers nothing; a later ["fire", d] unpauses it (fires the inner one).
+#        The function must observe the PROCESSED outcome (after the Deferred's own callbacks), at that later point.
 #   "errsub"/"failsub": the Deferred errbacks with an instance of a strict SUBCLASS of twisted.python.failure.Failure
 #   (as PB's CopiedFailure or application subclasses are); for the property, the model and the oracle this is a plain
 #   failure: the function must observe a raised exception.  dsub[d]: D[d] is an instance of a Deferred subclass.
@@ -150,6 +156,28 @@ def _cancs(case):
     return case.get("cancs") or [["nothing"]] * len(case["outs"])
 
 
+def _chains(case):
+    return case.get("chains") or ["none"] * len(case["outs"])
+
+
+def _process(chain, o):
+    """what a Deferred with this own chain delivers when it is fired with o = ("ok", v) | ("err", tag)"""
+    if o[0] == "ok":
+        return ("ok", o[1] + 100) if chain in ("plus", "inner") else o
+    return ("ok", 7) if chain == "recover" else o
+
+
+def _delivered(case):
+    """per Deferred: (outcome delivered when it fires on its own, outcome delivered when cancelled while awaited)"""
+    res = []
+    for o, c, ch in zip(case["outs"], _cancs(case), _chains(case)):
+        own = _process(ch, ("ok", o[1]) if o[0] == "ok" else ("err", f"E{o[1]}"))
+        raw_c = ("ok", c[1]) if c[0] == "succeed" else ("err", f"E{c[1]}") if c[0] in ("fail", "failsub") else ("err", "X")
+        # chain "inner": a cancel reaches either the unfired Deferred with a failing canceller, or the inner Deferred
+        res.append((own, raw_c if ch == "inner" else _process(ch, raw_c)))
+    return res
+
+
 def impl(case) -> str:
     from twisted.internet import defer
 
@@ -168,21 +196,56 @@ def impl(case) -> str:
         return canceller
 
     dsub = case.get("dsub") or [False] * n
+    cancs = _cancs(case)
     D = [(sub_deferred_class() if dsub[d] else defer.Deferred)(canceller=mk_canceller(d, beh))
-         for d, beh in enumerate(_cancs(case))]
+         for d, beh in enumerate(cancs)]
+    inners, paused = {}, set()
+
+    def make_inner(d, v):
+        inners[d] = (defer.Deferred(canceller=mk_canceller(d, cancs[d])), v + 100)
+        return inners[d][0]
+
+    for d, ch in enumerate(_chains(case)):
+        if ch == "plus":
+            D[d].addCallback(lambda v: v + 100)
+        elif ch == "recover":
+            D[d].addErrback(lambda fl: 7)
+        elif ch == "inner":
+            D[d].addCallback(lambda v, d=d: make_inner(d, v))
+
+    def fire_raw(d):
+        o = case["outs"][d]
+        if o[0] == "ok":
+            D[d].callback(o[1])
+        elif o[0] == "errsub":
+            D[d].errback(sub_failure(UserErr(o[1])))
+        else:
+            D[d].errback(UserErr(o[1]))
 
     def fire(d):
+        if d >= n:
+            return
+        if not D[d].called:
+            fire_raw(d)
+            if d in inners and not inners[d][0].called:      # chain "inner": deliver at once
+                inners[d][0].callback(inners[d][1])
+        elif d in paused:
+            paused.discard(d)
+            D[d].unpause()
+        elif d in inners and not inners[d][0].called:
+            inners[d][0].callback(inners[d][1])
+
+    def hold(d):
         if d < n and not D[d].called:
-            o = case["outs"][d]
-            if o[0] == "ok":
-                D[d].callback(o[1])
-            elif o[0] == "errsub":
-                D[d].errback(sub_failure(UserErr(o[1])))
-            else:
-                D[d].errback(UserErr(o[1]))
+            if _chains(case)[d] != "inner":
+                D[d].pause()
+                paused.add(d)
+            fire_raw(d)
 
     for d in case["pre"]:
         fire(d)
+    for d in case.get("prehold", []):
+        hold(d)
     import warnings
     warnings.filterwarnings("ignore", category=DeprecationWarning)      # returnValue is deprecated
     if case["variant"] == "gen":
@@ -196,13 +259,18 @@ def impl(case) -> str:
     for op in case["sched"]:
         if op[0] == "fire":
             fire(op[1])
+        elif op[0] == "hold":
+            hold(op[1])
         else:
             res.cancel()
-    for dd in D:
-        dd.addErrback(lambda fl: None)
     if len(out) > 1:
-        return " ".join(log) + " | TWICE " + " ".join(out)
-    return " ".join(log) + " | " + (out[0] if out else "S")
+        obs = " ".join(log) + " | TWICE " + " ".join(out)
+    else:
+        obs = " ".join(log) + " | " + (out[0] if out else "S")
+    # cleanup only (after the observation has been taken)
+    for dd in D + [x[0] for x in inners.values()]:
+        dd.addErrback(lambda fl: None)
+    return obs
 
 
 def sync_run(case):
@@ -217,20 +285,21 @@ def sync_run(case):
     import types
     log = []
     frames = [f(toks, log)]       # nested calls are ordinary calls: a stack of generators
-    fired = set(case["pre"])
+    fired = set(case["pre"])         # delivered
+    held = set()                     # fired while paused: raw result, nothing delivered, cancel does not reach them
     cancelled, taken = set(), set()
     st = {"on": None, "res": None}
+    delivered = _delivered(case)
+    chains = _chains(case)
+
+    def as_outcome(o):
+        return o if o[0] == "ok" else ("err", "X") if o[1] == "X" else ("err", UserErr(int(o[1][1:])))
 
     def outcome(d):
         if d in taken:
             return ("ok", None)
         taken.add(d)
-        if d in cancelled:
-            b = cancs[d]
-            return (("ok", b[1]) if b[0] == "succeed" else ("err", UserErr(b[1])) if b[0] in ("fail", "failsub")
-                    else ("err", "X"))
-        o = case["outs"][d]
-        return ("ok", o[1]) if o[0] == "ok" else ("err", UserErr(o[1]))
+        return as_outcome(delivered[d][1] if d in cancelled else delivered[d][0])
 
     def resume(o):
         from twisted.internet import defer
@@ -274,17 +343,31 @@ def sync_run(case):
             else:
                 send = y
 
+    def deliver(d):
+        if d < n and d not in fired:
+            fired.add(d)
+            held.discard(d)
+            if st["on"] == d:
+                resume(outcome(d))
+
+    def hold(d):
+        if d < n and d not in fired and d not in held:
+            if chains[d] != "inner":
+                held.add(d)
+            elif case["outs"][d][0] != "ok":
+                deliver(d)              # a failure skips the callback that would return the inner Deferred
+
+    for d in case.get("prehold", []):
+        hold(d)
     resume(None)
     for op in case["sched"]:
         if st["res"] is not None:
             break
         if op[0] == "fire":
-            d = op[1]
-            if d < n and d not in fired:
-                fired.add(d)
-                if st["on"] == d:
-                    resume(outcome(d))
-        elif st["on"] is not None:
+            deliver(op[1])
+        elif op[0] == "hold":
+            hold(op[1])
+        elif st["on"] is not None and st["on"] not in held:
             d = st["on"]
             log.append(f"c{d}")
             fired.add(d)
@@ -371,6 +454,31 @@ def _rand_canc(rng):
             else ["fail", rng.randrange(7, 9)] if r < 0.9 else ["failsub", rng.randrange(7, 9)])
 
 
+def _rand_chain(rng, canc):
+    r = rng.random()
+    ch = "none" if r < 0.55 else "plus" if r < 0.75 else "recover" if r < 0.88 else "inner"
+    if ch == "inner" and canc[0] == "succeed":      # a cancelled unfired Deferred would hand back a pending inner one
+        ch = "plus"
+    return ch
+
+
+def _with_holds(rng, case, p=0.5):
+    """own chains for the Deferreds, and some of them fired while paused ahead of the point where they deliver"""
+    n = len(case["outs"])
+    case["chains"] = [_rand_chain(rng, case["cancs"][d]) for d in range(n)]
+    if rng.random() < p:
+        unf = [d for d in range(n) if d not in case["pre"]]
+        rng.shuffle(unf)
+        for d in unf[:rng.choice([1, 1, 2])]:
+            if rng.random() < 0.5:
+                case.setdefault("prehold", []).append(d)
+            else:
+                sched = case["sched"]
+                k = next((i for i, o in enumerate(sched) if o == ["fire", d]), len(sched))
+                sched.insert(rng.randrange(k + 1), ["hold", d])
+    return case
+
+
 def _fail_out(rng, d):
     return ["errsub", d] if rng.random() < 0.35 else ["err", d]
 
@@ -401,11 +509,12 @@ def gen(rng, tier):
                         for sched in scheds:
                             if rng.random() > (0.15 if tier == "quick" else 0.6):
                                 continue
-                            cases.append({"variant": "gen", "body": body,
-                                          "outs": [["ok", 10 + d] if outs[d] else _fail_out(rng, d) for d in range(len(ds))],
-                                          "cancs": [_rand_canc(rng) for _ in ds],
-                                          "dsub": [rng.random() < 0.3 for _ in ds],
-                                          "pre": list(perm[:npre]), "sched": sched})
+                            cases.append(_with_holds(rng, {
+                                "variant": "gen", "body": body,
+                                "outs": [["ok", 10 + d] if outs[d] else _fail_out(rng, d) for d in range(len(ds))],
+                                "cancs": [_rand_canc(rng) for _ in ds],
+                                "dsub": [rng.random() < 0.3 for _ in ds],
+                                "pre": list(perm[:npre]), "sched": [list(o) for o in sched]}, 0.35))
     for _ in range(350 if tier == "quick" else 4000):
         variant = "gen" if rng.random() < 0.6 else "coro"
         nd = rng.randrange(1, 11)
@@ -422,13 +531,26 @@ def gen(rng, tier):
         if rng.random() < 0.6:
             for _ in range(rng.choice([1, 1, 2, 3])):
                 sched.insert(rng.randrange(len(sched) + 1), ["cancel"])
-        cases.append({"variant": variant, "body": body, "outs": outs, "cancs": [_rand_canc(rng) for _ in range(nd)],
-                      "dsub": [rng.random() < 0.3 for _ in range(nd)], "pre": order[:npre], "sched": sched})
+        cases.append(_with_holds(rng, {"variant": variant, "body": body, "outs": outs,
+                                       "cancs": [_rand_canc(rng) for _ in range(nd)],
+                                       "dsub": [rng.random() < 0.3 for _ in range(nd)], "pre": order[:npre],
+                                       "sched": sched}))
     return cases
 
 
 def corpus():
     return [
+        # awaited Deferreds with their own chain, fired while pause()d and unpaused later (coroutine and generator)
+        {"variant": "coro", "body": ["seq", ["await", 0], ["return", 1]], "outs": [["ok", 10]], "cancs": [["nothing"]],
+         "chains": ["plus"], "dsub": [False], "pre": [], "prehold": [0], "sched": [["cancel"], ["fire", 0]]},
+        {"variant": "coro", "body": ["try", ["seq", ["await", 0], ["await", 1]], ["mark", 2]],
+         "outs": [["ok", 10], ["err", 1]], "cancs": [["nothing"], ["nothing"]], "chains": ["none", "recover"],
+         "dsub": [False, False], "pre": [], "sched": [["hold", 1], ["fire", 0], ["fire", 1]]},
+        {"variant": "gen", "body": ["try", ["await", 0], ["mark", 2]], "outs": [["err", 0]], "cancs": [["nothing"]],
+         "chains": ["plus"], "dsub": [True], "pre": [], "prehold": [0], "sched": [["fire", 0]]},
+        {"variant": "coro", "body": ["try", ["call", ["await", 0]], ["await", 1]], "outs": [["ok", 10], ["ok", 11]],
+         "cancs": [["fail", 7], ["nothing"]], "chains": ["inner", "plus"], "dsub": [False, False], "pre": [],
+         "sched": [["hold", 0], ["hold", 1], ["cancel"], ["cancel"], ["fire", 1]]},
         # an awaited Deferred fails with an instance of a Failure subclass: handled / unhandled, fired later / before
         {"variant": "gen", "body": ["try", ["await", 0], ["mark", 1]], "outs": [["errsub", 0]], "cancs": [["nothing"]],
          "dsub": [False], "pre": [], "sched": [["fire", 0]]},
@@ -476,12 +598,37 @@ def _stmt_coq(s):
 
 
 def to_coq(case):
-    def canc(c):
-        return "CNothing" if c[0] == "nothing" else f"(CSucceed ({c[1]})%Z)" if c[0] == "succeed" else f"(CFail {c[1]})"  # fail / failsub
-    ds = coq_list([f"({'(Val (VInt (%d)%%Z))' % o[1] if o[0] == 'ok' else '(Exc (EUser %d))' % o[1]}, {canc(c)})"
-                   for o, c in zip(case["outs"], _cancs(case))], "(outcome * cbeh)")
-    sched = coq_list(["SCancel" if o[0] == "cancel" else f"SFire {o[1]}" for o in case["sched"]], "sop")
-    return f"({_stmt_coq(case['body'])}, {ds}, {coq_list(map(str, case['pre']), 'nat')}, {sched})"
+    def out(o):
+        return f"(Val (VInt ({o[1]})%Z))" if o[0] == "ok" else f"(Exc (EUser {o[1][1:]}))"
+
+    def canc(o):
+        return f"(CSucceed ({o[1]})%Z)" if o[0] == "ok" else "CNothing" if o[1] == "X" else f"(CFail {o[1][1:]})"
+
+    chains = _chains(case)
+    ds = coq_list([f"({out(own)}, {canc(c)})" for own, c in _delivered(case)], "(outcome * cbeh)")
+    pre, hold0, sched = list(case["pre"]), [], []
+
+    def hold_to(d, before):
+        # pause()+fire: held; chain "inner": nothing is delivered (ok: the inner Deferred is pending) or the failure at once
+        if d >= len(chains):
+            return
+        if chains[d] != "inner":
+            (hold0 if before else sched).append(d if before else f"SHold {d}")
+        elif case["outs"][d][0] != "ok":
+            (pre if before else sched).append(d if before else f"SFire {d}")
+
+    for d in case.get("prehold", []):
+        if d not in case["pre"]:
+            hold_to(d, True)
+    for o in case["sched"]:
+        if o[0] == "cancel":
+            sched.append("SCancel")
+        elif o[0] == "fire":
+            sched.append(f"SFire {o[1]}")
+        else:
+            hold_to(o[1], False)
+    return (f"({_stmt_coq(case['body'])}, {ds}, {coq_list(map(str, pre), 'nat')}, {coq_list(map(str, hold0), 'nat')}, "
+            f"{coq_list(sched, 'sop')})")
 
 
 def model_equal(case, a, b):
@@ -497,8 +644,10 @@ def shrink(case):
     if case["sched"]:
         yield {**case, "sched": case["sched"][:-1]}
     for i, o in enumerate(case["sched"]):
-        if o[0] == "cancel":
+        if o[0] in ("cancel", "hold"):
             yield {**case, "sched": case["sched"][:i] + case["sched"][i + 1:]}
+    if any(c != "none" for c in _chains(case)):
+        yield {**case, "chains": ["none"] * len(case["outs"])}
     if case["pre"]:
         yield {**case, "pre": case["pre"][:-1], "sched": [["fire", case["pre"][-1]]] + case["sched"]}
 
